@@ -129,6 +129,9 @@ impl<F: Float> FFT<F> {
             }
             return;
         }
+        // the folding step below reads the twiddle table, so the tables must cover n already here
+        // (the spectrum may come from another transformer object)
+        self.update_n(n);
         let buf = &mut self.bufs[0];
         buf.clear();
         buf.resize(v.len(), Complex::ZERO);
